@@ -15,6 +15,7 @@ type FieldLayout struct {
 	Type    string `json:"type,omitempty"`    // number type
 	Order   string `json:"order,omitempty"`   // BE | LE | "" (single byte)
 	Width   int64  `json:"width,omitempty"`   // fixed text width
+	WidthSym string `json:"width_sym,omitempty"` // symbolic width (primitive analysed with symbolic parameters)
 	Pad     string `json:"pad,omitempty"`     // pad byte (decimal) or ""
 	Side    string `json:"side,omitempty"`    // left | right
 	Prefix  string `json:"prefix,omitempty"`  // prefix number type (ptext, list)
@@ -48,7 +49,11 @@ func (f *FieldLayout) Canon() string {
 			b.WriteString("[" + f.Algo + "]")
 		}
 	case "fixed":
-		fmt.Fprintf(&b, "(%d,pad=%s,%s)", f.Width, f.Pad, f.Side)
+		if f.WidthSym != "" {
+			fmt.Fprintf(&b, "(%s,pad=%s,%s)", f.WidthSym, f.Pad, f.Side)
+		} else {
+			fmt.Fprintf(&b, "(%d,pad=%s,%s)", f.Width, f.Pad, f.Side)
+		}
 	case "ptext":
 		fmt.Fprintf(&b, "(%s,%s)", f.Prefix, f.POrder)
 	case "list":
@@ -104,16 +109,24 @@ func isWireEvent(e *Event) bool {
 	return false
 }
 
+// countsAsWire: the event occupies a position in the wire sequence.
+func countsAsWire(e *Event) bool {
+	if !isWireEvent(e) {
+		return false
+	}
+	if e.Kind == EvBufOther && observerMethods[e.Mode] {
+		return false
+	}
+	if (e.Kind == EvAlt || e.Kind == EvRep) && !altHasWire(e) {
+		return false // effect-free alternatives / loops (pure computation such as scanning read bytes)
+	}
+	return true
+}
+
 func wireOnly(evs []*Event) []*Event {
 	var out []*Event
 	for _, e := range evs {
-		if e.Kind == EvBufOther && observerMethods[e.Mode] {
-			continue
-		}
-		if e.Kind == EvAlt && !altHasWire(e) {
-			continue
-		}
-		if isWireEvent(e) {
+		if countsAsWire(e) {
 			out = append(out, e)
 		}
 	}
@@ -199,7 +212,7 @@ func textOf(v *Val) *Val {
 // lenArg: v = T(len(X)) or len(X); returns X.
 func lenArg(v *Val) *Val {
 	v = stripCT(v)
-	for v != nil && v.Op == "conv" && isIntegerType(v.Type) {
+	for v != nil && v.Op == "conv" && (isIntegerType(v.Type) || isTypeParam(v.Type)) {
 		v = stripCT(v.Args[0])
 	}
 	if v != nil && v.Op == "len" {
@@ -208,9 +221,15 @@ func lenArg(v *Val) *Val {
 	return nil
 }
 
+func isTypeParam(t types.Type) bool {
+	_, ok := t.(*types.TypeParam)
+	return ok
+}
+
 func affEq(a, b *Val) bool { return affOf(a).Equal(affOf(b)) }
 
 type layoutCtx struct {
+	loopIdx map[int]*Event
 	u    *Universe
 	ct   *CodecType // nil when analysing a primitive standalone
 	path *Path
@@ -460,6 +479,7 @@ func (c *layoutCtx) fixedEnc(evs []*Event) *FieldLayout {
 	arms := expandArms(evs)
 	var subj *Val
 	width := int64(-1)
+	widthSym := ""
 	pad, side := "", ""
 	for _, arm := range arms {
 		total := affConst(0)
@@ -502,14 +522,25 @@ func (c *layoutCtx) fixedEnc(evs []*Event) *FieldLayout {
 		}
 		n, ok := total.IsConst()
 		if !ok {
-			f.Kind, f.Note = "irregular", "text field width is not constant on some path: "+total.String()
-			return f
+			// symbolic width: allowed only when analysing a primitive with symbolic parameters
+			if c.ct != nil {
+				f.Kind, f.Note = "irregular", "text field width is not constant on some path: "+total.String()
+				return f
+			}
+			if widthSym != "" && widthSym != total.String() {
+				f.Kind, f.Note = "irregular", "text field width differs between paths: "+widthSym+" / "+total.String()
+				return f
+			}
+			widthSym = total.String()
+			n = -1
 		}
-		if width >= 0 && width != n {
+		if width >= 0 && n >= 0 && width != n {
 			f.Kind, f.Note = "irregular", fmt.Sprintf("text field width differs between paths: %d / %d", width, n)
 			return f
 		}
-		width = n
+		if n >= 0 {
+			width = n
+		}
 		s := ""
 		switch {
 		case padBefore && padAfter:
@@ -527,7 +558,11 @@ func (c *layoutCtx) fixedEnc(evs []*Event) *FieldLayout {
 			side = s
 		}
 	}
-	f.Width, f.Pad, f.Side = width, pad, side
+	f.Width, f.Pad, f.Side, f.WidthSym = width, pad, side, widthSym
+	if width >= 0 && widthSym != "" {
+		f.Kind, f.Note = "irregular", fmt.Sprintf("text field width is %d on some paths and %s on others", width, widthSym)
+		return f
+	}
 	if subj == nil {
 		f.Kind, f.Note = "irregular", "text field without data bytes"
 		return f
@@ -657,7 +692,7 @@ func containsCollect(v *Val, loop int) bool {
 }
 
 // valuePath checks that v derives from wire#id only through lossless operations; returns the offending ones.
-func valuePath(v *Val, id int, allowTrim bool) (ops []string, trim string, pad *Val) {
+func valuePath(v *Val, id int, allowTrim bool, loops map[int]*Event) (ops []string, trim string, pad *Val, padIsByte bool) {
 	v = stripCT(v)
 	for {
 		switch {
@@ -678,7 +713,13 @@ func valuePath(v *Val, id int, allowTrim bool) (ops []string, trim string, pad *
 			pad = v.Args[1]
 			v = stripCT(v.Args[0])
 		case v.Op == "slice" && allowTrim:
-			ops = append(ops, "sub-slice "+v.Pretty())
+			if side, p, ok := scanTrim(v, loops); ok && trim == "" {
+				if side != "" {
+					trim, pad, padIsByte = side, p, true
+				}
+			} else {
+				ops = append(ops, "sub-slice "+v.Pretty())
+			}
 			v = stripCT(v.Args[0])
 		case v.Op == "call":
 			ops = append(ops, v.Name)
@@ -758,7 +799,7 @@ func (c *layoutCtx) extractDec(evs []*Event, sink func(wireIDs []int, loop int) 
 						f.Note = "value read is not stored in a field"
 						f.Kind = "irregular"
 					} else {
-						ops, trim, _ := valuePath(v, nx.ID, true)
+						ops, trim, _, _ := valuePath(v, nx.ID, true, c.loops())
 						f.ValueOps = ops
 						if trim != "" {
 							f.ValueOps = append(f.ValueOps, "trim "+trim)
@@ -806,7 +847,7 @@ func (c *layoutCtx) extractDec(evs []*Event, sink func(wireIDs []int, loop int) 
 			name, idx, v, ok := sink([]int{ev.ID}, 0)
 			if ok {
 				f.Name, f.GoField = name, idx
-				ops, _, _ := valuePath(v, ev.ID, false)
+				ops, _, _, _ := valuePath(v, ev.ID, false, c.loops())
 				f.ValueOps = ops
 			} else {
 				f.Kind, f.Note = "irregular", "number read (wire#"+fmt.Sprint(ev.ID)+") is not stored in a field"
@@ -816,9 +857,13 @@ func (c *layoutCtx) extractDec(evs []*Event, sink func(wireIDs []int, loop int) 
 			f := &FieldLayout{Kind: "fixed", GoField: -1, Pos: rootPos(ev), Ev: []*Event{ev}, WireIDs: []int{ev.ID}}
 			n, ok := affOf(ev.Size).IsConst()
 			if !ok {
-				f.Kind, f.Note = "irregular", "bytes read with a length that is neither constant nor the preceding prefix: "+ev.Size.Pretty()
-				out = append(out, f)
-				continue
+				if c.ct != nil || ev.Size.Contains(func(x *Val) bool { return x.Op == "wire" }) {
+					f.Kind, f.Note = "irregular", "bytes read with a length that is neither constant nor the preceding prefix: "+ev.Size.Pretty()
+					out = append(out, f)
+					continue
+				}
+				f.WidthSym = affOf(ev.Size).String()
+				n = -1
 			}
 			f.Width = n
 			name, idx, v, ok := sink([]int{ev.ID}, 0)
@@ -828,11 +873,15 @@ func (c *layoutCtx) extractDec(evs []*Event, sink func(wireIDs []int, loop int) 
 				continue
 			}
 			f.Name, f.GoField = name, idx
-			ops, trim, pad := valuePath(v, ev.ID, true)
+			ops, trim, pad, isByte := valuePath(v, ev.ID, true, c.loops())
 			f.ValueOps = ops
 			f.Side = trim
 			if pad != nil {
-				f.Pad = cutsetByte(pad)
+				if isByte {
+					f.Pad = padString(pad)
+				} else {
+					f.Pad = cutsetByte(pad)
+				}
 			}
 			out = append(out, f)
 		case EvObj:
@@ -910,3 +959,116 @@ func (c *layoutCtx) elemLayoutDec(rep *Event, stored *Val) *FieldLayout {
 }
 
 var _ = types.Typ
+
+// loops indexes the REP events of the path by loop id.
+func (c *layoutCtx) loops() map[int]*Event {
+	if c.loopIdx == nil {
+		c.loopIdx = map[int]*Event{}
+		if c.path != nil {
+			walkEvents(c.path.Events, func(e *Event, _ int) {
+				if e.Kind == EvRep {
+					if _, ok := c.loopIdx[e.LoopID]; !ok || !e.Partial {
+						c.loopIdx[e.LoopID] = e
+					}
+				}
+			})
+		}
+	}
+	return c.loopIdx
+}
+
+// scanTrim recognises the boundary-scan strip idiom: W[lo:hi] where one bound is the
+// result of a loop that moves it inwards one byte at a time while the boundary byte
+// equals the pad byte, and the other bound is the end of W. side is "left", "right" or
+// "" (no stripping: the whole of W).
+func scanTrim(sl *Val, loops map[int]*Event) (side string, pad *Val, ok bool) {
+	W := stripCT(sl.Args[0])
+	lo, hi := sl.Args[1], sl.Args[2]
+	loFixed := lo == nil
+	if n, isC := lo.Int64(); lo != nil && isC && n == 0 {
+		loFixed = true
+	}
+	hiFixed := hi == nil || affEq(hi, mkLen(W))
+	loopOf := func(v *Val) *Event {
+		if v == nil {
+			return nil
+		}
+		v = stripCT(v)
+		if (v.Op == "loopvar" || v.Op == "loopout") && loops != nil {
+			return loops[v.ID]
+		}
+		return nil
+	}
+	switch {
+	case loFixed && hiFixed:
+		return "", nil, true
+	case !loFixed && hiFixed:
+		if l := loopOf(lo); l != nil {
+			if p, ok := verifyScan(l, W, true); ok {
+				return "left", p, true
+			}
+		}
+	case loFixed && !hiFixed:
+		if l := loopOf(hi); l != nil {
+			if p, ok := verifyScan(l, W, false); ok {
+				return "right", p, true
+			}
+		}
+	}
+	return "", nil, false
+}
+
+func verifyScan(loop *Event, W *Val, left bool) (*Val, bool) {
+	if len(loop.Iter) != 1 {
+		return nil, false
+	}
+	arm := loop.Iter[0]
+	for _, e := range arm.Events {
+		if e.Kind != EvPanicSite {
+			return nil, false
+		}
+	}
+	if len(arm.Next) != 1 || len(arm.Conds) != 2 || !arm.Conds[0].Taken || !arm.Conds[1].Taken {
+		return nil, false
+	}
+	var lv *Val
+	arm.Conds[0].V.Walk(func(x *Val) bool {
+		if x.Op == "loopvar" && x.ID == loop.LoopID {
+			lv = x
+		}
+		return true
+	})
+	if lv == nil || len(lv.Args) != 1 {
+		return nil, false
+	}
+	step, _ := lv.Aux.(int64)
+	c1, c2 := arm.Conds[0].V, arm.Conds[1].V
+	if c1.Op != "binop" || c2.Op != "binop" || c2.Name != "==" {
+		return nil, false
+	}
+	var idx *Val
+	if left {
+		init, isC := lv.Args[0].Int64()
+		if step != 1 || !isC || init != 0 || c1.Name != "<" || c1.Args[0].Key() != lv.Key() || !affEq(c1.Args[1], mkLen(W)) {
+			return nil, false
+		}
+		idx = lv
+	} else {
+		s, isC := c1.Args[1].Int64()
+		if step != -1 || !affEq(lv.Args[0], mkLen(W)) || c1.Name != ">" || c1.Args[0].Key() != lv.Key() || !isC || s != 0 {
+			return nil, false
+		}
+		idx = &Val{Op: "binop", Name: "-", Args: []*Val{lv, mkInt(1)}}
+	}
+	el, p := stripCT(c2.Args[0]), stripCT(c2.Args[1])
+	if el.Op != "elem" {
+		el, p = p, el
+	}
+	if el.Op != "elem" || stripCT(el.Args[0]).Key() != W.Key() || !affEq(el.Args[1], idx) {
+		return nil, false
+	}
+	if p.Contains(func(x *Val) bool { return x.Op == "wire" || x.Op == "loopvar" || x.Op == "elem" }) {
+		return nil, false
+	}
+	return p, true
+}
